@@ -88,7 +88,7 @@ c06=["bgp/c06.go"]
 add("C06.strongest_one","VH_c06_strongest",BGP,c06,{"two":0},{"two":0},merge=UM,expect_reach=["clean","end"],bounds="valid base UPDATE (ORIGIN, AS_PATH, NEXT_HOP, MED, one /16 NLRI, values symbolic) with one fault of a 14-entry catalogue, fault parameters symbolic, eBGP/iBGP symbolic")
 add("C06.strongest_two","VH_c06_strongest",BGP,c06,{"two":1},{"two":1},merge=UM,expect_reach=["end"],bounds="the same base UPDATE with every compatible unordered pair of faults of the catalogue")
 add("C06.treat_as_withdraw","VH_c06_treat_as_withdraw",TBL,tc+["table/c06.go","table/c02.go","table/c03.go","table/c14.go"],{"segs":1},{"segs":1},expect_reach=["end"],bounds="UPDATE naming 5 prefixes (2 NLRI, 1 withdrawn, 1 MP_REACH, 1 MP_UNREACH) with symbolic address bytes, treat-as-withdraw symbolic")
-add("C06.handling_error","VH_c06_handling_error",SRV,sc+["server/c06.go"],expect_reach=["end"],bounds="every error class x message type x revised error handling on/off")
+add("C06.handling_error","VH_c06_handling_error",SRV,sc+["server/c06.go","server/c06cat.go"],expect_reach=["end"],bounds="every error class x message type x revised error handling on/off")
 for two in (0,1):
     add("C06.recvloop_%s"%("two" if two else "one"),"VH_c06_recvloop",SRV,sc+["server/c06.go","server/c06cat.go"],{"two":two},{"two":two},merge=UM,expect_reach=["install","withdraw","reset"],bounds="the real recvMessageloop reading one UPDATE (base + %s catalogue fault(s)) from a scripted transport; eBGP/iBGP x revised error handling on/off"%("two" if two else "one"))
 add("C02.server_history","VH_c02_server_history",SRV,sc+["server/c02.go"],{"params":{"steps":2},"unwind":2200},{"params":{"steps":3},"unwind":2200},expect_reach=["installed","looped"],bounds="real BgpServer.handleFSMMessage, one eBGP peer, one prefix, every history of 2 (quick) / 3 UPDATEs over {clean announce (symbolic AS), looped announce, withdraw}")
@@ -121,4 +121,7 @@ for d,exp in (("in",0),("out",1)):
     for o in range(4):
         for n in range(4):
             if o==0 and n==0: continue
-            add("C15.soft_reset_%s.o%dn%d"%(d,o,n),"VH_c15_soft_reset",SRV,sc+["server/c15.go"],{"params":{"export":exp},"unwind":2200,"harness_s":600},{"params":{"export":exp},"unwind":2200,"harness_s":1200},expect_reach=["end"],fixed_clock=True,pins={"old_op":o,"new_op":n},bounds=C15B%("in (import policy)" if exp==0 else "out (export policy)")+"; this instance: old operator %d, new operator %d (0 = no policy)"%(o,n))
+            q={"params":{"export":exp,"routes":1},"unwind":2200,"harness_s":600}
+            if (o,n) not in ((0,2),(2,0),(1,3),(3,2)): q["skip"]=True
+            add("C15.soft_reset_%s.o%dn%d"%(d,o,n),"VH_c15_soft_reset",SRV,sc+["server/c15.go"],q,{"params":{"export":exp,"routes":2},"unwind":2200,"harness_s":1800},expect_reach=["end"],fixed_clock=True,pins={"old_op":o,"new_op":n},bounds=C15B%("in (import policy)" if exp==0 else "out (export policy)")+"; this instance: old operator %d, new operator %d (0 = no policy); quick tier: 1 route and 4 of the 15 operator pairs per direction"%(o,n))
+add("C01.server_flaps","VH_c01_server_flaps",SRV,sc+["server/c01.go"],{"params":{"steps":3},"unwind":4200,"harness_s":600},{"params":{"steps":4},"unwind":4200,"harness_s":2400},expect_reach=["advertised","source_lost"],fixed_clock=True,bounds="real BgpServer.handleFSMMessage incl. its PeerDown and Established (initial table transfer) branches and fsm.stateChange: 2 eBGP sources and 1 eBGP target, one prefix, every history of 3 (quick) / 4 events over {announce (symbolic AS) / withdraw from either source, loss of a source's session, flap of the target's session}")
